@@ -67,6 +67,8 @@ mod groups;
 mod messages;
 mod mls_storage;
 mod snapshot;
+#[cfg(feature = "verif-hooks")]
+mod verif_hooks;
 mod welcomes;
 
 use self::mls_storage::{
